@@ -169,6 +169,9 @@ func (l *Lin) coef(v int) int64 {
 
 func (l *Lin) Has(v int) bool { return l.coef(v) != 0 }
 
+// Coef returns the coefficient of v.
+func (l *Lin) Coef(v int) int64 { return l.coef(v) }
+
 // Subst replaces variable v by expression e.
 func (l *Lin) Subst(v int, e *Lin) *Lin {
 	c := l.coef(v)
